@@ -77,6 +77,20 @@ def run(chk):
                 ok2, b = call_guard(nsig, c * x)
                 batch.add({'ev': 'decision', 'what': 'NSIG-' + crit, 'dt': dt, 'raised': not (ok1 and ok2),
                            'a': a if ok1 else -1, 'b': b if ok2 else -2}, {'c': c, 'seed': chk.seed})
+            # ... and chosen by a threshold on the singular values (relative to the smallest one)
+            for thr in (1.5, 3.0, 10.0, 50.0):
+                def nsig_t(d):
+                    from spectrum.eigenfre import _get_signal_space
+                    S = eigen(d, 8, NSIG=2, method='music', NFFT=64)[1]
+                    return int(_get_signal_space(S, 2 * min(len(d) - 8, 100), NSIG=None, threshold=thr))
+                ok1, a = call_guard(nsig_t, x)
+                ok2, b = call_guard(nsig_t, c * x)
+                batch.add({'ev': 'decision', 'what': 'NSIG-threshold', 'dt': dt, 'raised': not (ok1 and ok2),
+                           'a': a if ok1 else -1, 'b': b if ok2 else -2}, {'c': c, 'threshold': thr, 'seed': chk.seed})
+                for meth in ('music', 'ev'):
+                    scaling_events(chk, batch, rng, meth + '-threshold', 'function',
+                                   lambda d, m=meth, t=thr: {('pseudo_music' if m == 'music' else 'pseudo_ev'):
+                                                             eigen(d, 8, NSIG=None, threshold=t, method=m, NFFT=nfft)[0]}, x, c, dt)
             for crit in ('AIC', 'AICc', 'KIC', 'AKICc', 'MDL', 'FPE'):
                 ok1, a = call_guard(lambda d: len(sp.arburg(d, 10, crit)[2]), x)
                 ok2, b = call_guard(lambda d: len(sp.arburg(d, 10, crit)[2]), c * x)
